@@ -1057,4 +1057,20 @@ theorem seeded_join_spins (n : Nat) :
   exact key n _ ⟨by decide, by simp [St.keys], by simp [St.keys]⟩
 
 
+/-- non-vacuity of `load_imports_terminates` / `load_imports_complete` / `load_imports_returns_only_if_nodup`: a reachable state in
+    the middle of a load (one path imported, one pending) satisfies `Inv`, and `_load_imported_paths` returns from it -/
+def demoMid : St := { importPaths := ["a", "pkg"], imported := [("a", "lib/a.co")], files := [0, 1], parsed := 1 }
+def demoMid' : St := { importPaths := ["a", "pkg"], imported := [("a", "lib/a.co"), ("pkg", "lib/pkg")], files := [0, 1, 3], parsed := 1 }
+
+example : Inv demoU demoMid :=
+  ⟨by decide, by simp [demoMid, demoU], by decide, by simp [demoMid, St.keys]⟩
+
+example : whileLoop demoWorld 6 demoMid = some (.ok demoMid') := by decide
+
+/-- `config_load_loads_everything` instantiated at the demo configuration -/
+example : ∀ f ∈ demoResult.files, ∀ ips, demoWorld.parse f = some ips → ips ⊆ demoResult.importPaths :=
+  (config_load_loads_everything demoWorld demoU demo_ymlClosed demo_coClosed [Item.co 0]
+    (by simp [ymlPaths]) (by intro f hf ips hps; simp [coFiles] at hf; subst hf; simp [demoWorld] at hps; subst hps; simp [demoU])
+    12 demoResult (by decide)).2.2
+
 end NemoVerif.C13
